@@ -408,6 +408,9 @@ def gen_world(src, profile):
         a = src.pick(p_attrs)
         if a["default"][0] != "none" and not is_collection(a["type"]) and a["type"][0] not in ("spec",):
             mdesc["redefaults"] = {a["name"]: gen_value(src, a["type"], True)}
+            if profile.get("flags", True) and src.chance(1, 3):
+                # ... through an Attr(...) of its own (no new annotation): that declaration's flags replace the inherited ones
+                mdesc["redeclared_flags"] = {a["name"]: {"compare": src.chance(1, 2), "repr": src.chance(1, 2)}}
             if profile.get("preparers", True) and a["type"][0] in PREPARERS and src.chance(1, 2):
                 pdesc = world["classes"][-1]
                 pdesc.setdefault("prepare", {})[a["name"]] = src.pick(PREPARERS[a["type"][0]])
@@ -615,6 +618,9 @@ class World:
             if not self.build_classes:
                 merged = dict(inherited)
                 merged.update({a["name"]: a for a in c["attrs"]})
+                for name, fl in (c.get("redeclared_flags") or {}).items():
+                    if name in merged:
+                        merged[name] = dict({k: v for k, v in merged[name].items() if k not in ("init", "repr", "compare", "invalidated_by")}, **fl)
                 self.all_attrs[c["name"]] = merged
                 continue
             own = {}
@@ -650,7 +656,8 @@ class World:
                 else:
                     raise AssertionError(d)
             for name, v in (c.get("redefaults") or {}).items():
-                ns[name] = self._default_obj(v)
+                fl = (c.get("redeclared_flags") or {}).get(name)
+                ns[name] = Attr(default=self._default_obj(v), **fl) if fl is not None else self._default_obj(v)
             for name, how in (c.get("prepare") or {}).items():
                 if c.get("prepare_style") == "decorator" and isinstance(ns.get(name), Attr):
                     ns[name].preparer(self._preparer("prepare", name, how))  # the `@<attr>.preparer` spelling
@@ -728,6 +735,10 @@ class World:
             self.classes[c["name"]] = cls
             merged = dict(inherited)
             merged.update(own)
+            for name, fl in (c.get("redeclared_flags") or {}).items():
+                if name in merged:
+                    # an own Attr(...) declaration: flags not given fall back to Attr's defaults, not to the parent's
+                    merged[name] = dict({k: v for k, v in merged[name].items() if k not in ("init", "repr", "compare", "invalidated_by")}, **fl)
             self.all_attrs[c["name"]] = merged
 
     def _default_obj(self, vdesc):
